@@ -10,6 +10,7 @@ package main
 import (
 	"bytes"
 	"fmt"
+	"strings"
 	"time"
 
 	"gitlab.com/gomidi/midi/v2"
@@ -56,11 +57,26 @@ var counts = []int{0, 1, 2, 3, 7, 13, 20}
 
 // tick patterns: delta of event i (of n) on track tr
 var patterns = map[string]func(tr, i, n int) uint32{
-	"one-tick":      func(tr, i, n int) uint32 { return 0 },
-	"step-middle":   func(tr, i, n int) uint32 { if i == n/2 { return 480 }; return 0 },
-	"increasing":    func(tr, i, n int) uint32 { return 10 },
-	"interleaved":   func(tr, i, n int) uint32 { if i == 0 { return uint32(tr) * 5 }; return 15 },
-	"later-earlier": func(tr, i, n int) uint32 { if i == 0 { return uint32(2-tr) * 100 }; return 0 },
+	"one-tick": func(tr, i, n int) uint32 { return 0 },
+	"step-middle": func(tr, i, n int) uint32 {
+		if i == n/2 {
+			return 480
+		}
+		return 0
+	},
+	"increasing": func(tr, i, n int) uint32 { return 10 },
+	"interleaved": func(tr, i, n int) uint32 {
+		if i == 0 {
+			return uint32(tr) * 5
+		}
+		return 15
+	},
+	"later-earlier": func(tr, i, n int) uint32 {
+		if i == 0 {
+			return uint32(2-tr) * 100
+		}
+		return 0
+	},
 	// one tick apart at 960 ticks per quarter: gaps of about half a millisecond
 	"adjacent-ticks": func(tr, i, n int) uint32 { return 1 },
 }
@@ -520,8 +536,17 @@ func main() {
 			fmt.Sscanf(k, "%d", &ki)
 			mp[ki] = v.(string)
 		}
-		data, exp := build(ns, m["pattern"].(string), m["with_meta"].(bool))
-		play(data, exp, ns, m["pattern"].(string), m["with_meta"].(bool), sel, mp)
+		pat := m["pattern"].(string)
+		if pat == "many-tracks" {
+			manyTracks()
+			ctx.Finish("replay")
+		}
+		only, twice, both := strings.Contains(pat, "+only-filter"), strings.Contains(pat, "+second-playback"), strings.Contains(pat, "+only-two-types")
+		if i := strings.Index(pat, "+"); i >= 0 {
+			pat = pat[:i]
+		}
+		data, exp := build(ns, pat, m["with_meta"].(bool))
+		playVariant(data, exp, ns, pat, m["with_meta"].(bool), sel, mp, only, twice, both)
 		ctx.Finish("replay")
 	}
 	ctx.Assume("order among different tracks at equal times is not judged; sysex events are neither required nor forbidden; scheduled time = SMF.TimeAt (checked against the exact tempo integral in C11)")
